@@ -4,6 +4,8 @@ import (
 	"bytes"
 	"encoding/binary"
 	"encoding/gob"
+	"errors"
+	"fmt"
 	"sort"
 	"sync"
 
@@ -37,7 +39,14 @@ func OpenIndexFromBoltDatabase(db *bbolt.DB, opts ...IndexOption) (*Index, error
 
 	err := db.View(func(tx *bbolt.Tx) error {
 		bucket := tx.Bucket([]byte("data"))
+		if bucket == nil {
+			return errors.New("not an updog index: data bucket is missing")
+		}
+
 		schemaItem := bucket.Get(keySchema)
+		if schemaItem == nil {
+			return errors.New("not an updog index: schema is missing")
+		}
 
 		var sch schema
 
@@ -48,6 +57,9 @@ func OpenIndexFromBoltDatabase(db *bbolt.DB, opts ...IndexOption) (*Index, error
 		idx.schema = &sch
 
 		rowsItem := bucket.Get(keyNextRowID)
+		if len(rowsItem) != 4 {
+			return fmt.Errorf("not an updog index: row counter has %d bytes, expected 4", len(rowsItem))
+		}
 
 		idx.nextRowID = binary.BigEndian.Uint32(rowsItem)
 		return nil
@@ -63,6 +75,8 @@ func OpenIndexFromBoltDatabase(db *bbolt.DB, opts ...IndexOption) (*Index, error
 
 	for _, opt := range opts {
 		if err := opt(idx); err != nil {
+			// release the file, otherwise it stays locked and cannot be opened again.
+			db.Close()
 			return nil, err
 		}
 	}
@@ -231,9 +245,18 @@ func newPreloadedColGetter(db *bbolt.DB) (colGetter, error) {
 	}
 
 	err := db.View(func(tx *bbolt.Tx) error {
-		c := tx.Bucket([]byte("data")).Cursor()
+		bucket := tx.Bucket([]byte("data"))
+		if bucket == nil {
+			return errors.New("not an updog index: data bucket is missing")
+		}
+
+		c := bucket.Cursor()
 
 		for k, v := c.Seek(keyPrefixValue); k != nil && bytes.HasPrefix(k, keyPrefixValue); k, v = c.Next() {
+			if len(k) != 9 {
+				return fmt.Errorf("not an updog index: value key has %d bytes, expected 9", len(k))
+			}
+
 			key := binary.BigEndian.Uint64(k[1:])
 
 			bm := roaring.New()
